@@ -217,12 +217,15 @@ def cache_type(method: Method) -> Method:
     @wraps(method)
     def wrapper(self: "SchemaBuilder", *args, **kwargs):
         factory = method(self, *args, **kwargs)
+        # The type of a flattened field is only used for its fields, whose resolvers are
+        # bound to the flattening object: it must not be shared by name
+        flattened = getattr(self, "get_flattened", None) is not None
 
         @wraps(factory.factory)
         def name_cache(
             name: Optional[str], description: Optional[str]
         ) -> graphql.GraphQLNonNull:
-            if name is None:
+            if name is None or flattened:
                 tp = factory.factory(name, description)
                 return graphql.GraphQLNonNull(tp) if tp is not JSON_SCALAR else tp
             # Method is in cache key because scalar types will have the same method,
@@ -619,10 +622,12 @@ class OutputSchemaBuilder(
             return partial_serialize(getattr(obj, field_name))
 
         # None of a none_as_undefined field is resolved as null, like Undefined
-        factory = self.visit_with_conv(
-            Optional[field.type] if field.none_as_undefined else field.type,
-            field.serialization,
-        )
+        with context_setter(self):
+            self.get_flattened = None  # the type of the field is not flattened itself
+            factory = self.visit_with_conv(
+                Optional[field.type] if field.none_as_undefined else field.type,
+                field.serialization,
+            )
         field_schema = get_field_schema(tp, field)
         return lambda: graphql.GraphQLField(
             factory.type,
@@ -698,7 +703,11 @@ class OutputSchemaBuilder(
                     )
 
                 args[self.aliaser(param_field.alias)] = arg_thunk
-        factory = self.visit_with_conv(field.types["return"], field.resolver.conversion)
+        with context_setter(self):
+            self.get_flattened = None  # the returned type is not flattened itself
+            factory = self.visit_with_conv(
+                field.types["return"], field.resolver.conversion
+            )
         field_schema = get_method_schema(tp, field.resolver)
         return lambda: graphql.GraphQLField(
             factory.type,
